@@ -119,6 +119,7 @@ func main() {
 		if p.name == "router" {
 			collectConsts(p)
 			collectYieldKeep(p)
+			collectInvkDrops(p)
 		}
 	}
 	for _, p := range pkgs {
@@ -1668,6 +1669,104 @@ func collectYieldKeep(p *pkgInfo) {
 	}
 }
 
+// invkDrops: every place where the dealer forgets an invocation
+// (delete(<x>.invocations, k)) or overwrites its timer handle
+// (<x>.timerCancel = ...), with whether a call of <y>.timerCancel() comes
+// first.  dealer.close can only stop the timers of invocations that are still
+// in d.invocations (and then waits for the timer goroutines), so an invocation
+// must not leave the table with its timer running.
+//
+// "Comes first": a statement that contains a timerCancel() call precedes the
+// drop in one of the blocks enclosing it, looking outwards through enclosing
+// blocks and function literals up to, and not beyond, the innermost loop body.
+var invkDrops [][3]string // function, file:line, "true" / "false"
+
+func hasTimerCancelCall(n ast.Node) bool {
+	found := false
+	ast.Inspect(n, func(x ast.Node) bool {
+		if c, ok := x.(*ast.CallExpr); ok {
+			if sel, ok := c.Fun.(*ast.SelectorExpr); ok && sel.Sel.Name == "timerCancel" {
+				found = true
+			}
+		}
+		return !found
+	})
+	return found
+}
+
+func collectInvkDrops(p *pkgInfo) {
+	for _, f := range p.files {
+		for _, d := range f.Decls {
+			fd, ok := d.(*ast.FuncDecl)
+			if !ok || fd.Body == nil {
+				continue
+			}
+			name := fd.Name.Name
+			if fd.Recv != nil && len(fd.Recv.List) == 1 {
+				name = "(" + types.ExprString(fd.Recv.List[0].Type) + ")." + name
+			}
+			// path: the chain of nodes from the body down to the current one
+			var path []ast.Node
+			ast.Inspect(fd.Body, func(n ast.Node) bool {
+				if n == nil {
+					path = path[:len(path)-1]
+					return true
+				}
+				path = append(path, n)
+				drop := false
+				switch x := n.(type) {
+				case *ast.CallExpr:
+					if id, ok := x.Fun.(*ast.Ident); ok && id.Name == "delete" && len(x.Args) == 2 {
+						if sel, ok := x.Args[0].(*ast.SelectorExpr); ok && sel.Sel.Name == "invocations" {
+							drop = true
+						}
+					}
+				case *ast.AssignStmt:
+					for _, l := range x.Lhs {
+						if sel, ok := l.(*ast.SelectorExpr); ok && sel.Sel.Name == "timerCancel" {
+							drop = true
+						}
+					}
+				}
+				if !drop {
+					return true
+				}
+				cancelled := false
+				// walk outwards: child = the node of path that lies inside parent
+			outer:
+				for i := len(path) - 1; i > 0; i-- {
+					child, parent := path[i], path[i-1]
+					var list []ast.Stmt
+					switch b := parent.(type) {
+					case *ast.BlockStmt:
+						list = b.List
+					case *ast.CaseClause:
+						list = b.Body
+					case *ast.CommClause:
+						list = b.Body
+					}
+					for _, st := range list {
+						if st == child {
+							break
+						}
+						if st.End() <= child.Pos() && hasTimerCancelCall(st) {
+							cancelled = true
+							break outer
+						}
+					}
+					switch parent.(type) {
+					case *ast.ForStmt, *ast.RangeStmt:
+						break outer
+					}
+				}
+				pos := fset.Position(n.Pos())
+				invkDrops = append(invkDrops, [3]string{p.name + "." + name, fmt.Sprintf("%s:%d", filepath.Base(pos.Filename), pos.Line), fmt.Sprint(cancelled)})
+				return true
+			})
+		}
+	}
+}
+
 // methodsBySig: "name|signature" -> inventory methods, for interface calls.
 var methodsBySig = map[string][]string{}
 
@@ -1858,6 +1957,15 @@ func emit() string {
 	b.WriteString("Definition gen_submitters : list string := [" + strings.Join(subs, "; ") + "].\n\n")
 	fmt.Fprintf(&b, "Definition gen_send_result_deadline_ms : N := %d.\nDefinition gen_yield_retry_delay_ms : N := %d.\n\n", constMs["sendResultDeadline"], constMs["yieldRetryDelay"])
 	fmt.Fprintf(&b, "(* %s *)\nDefinition gen_yield_retry_keeps_invocation : option bool := %s.\n\n", strings.ReplaceAll(yieldKeepWhy, "*)", "* )"), yieldKeep)
+	b.WriteString("Definition gen_invocation_drops : list (string * string * bool) := [\n")
+	for i, d := range invkDrops {
+		sep := ";"
+		if i == len(invkDrops)-1 {
+			sep = ""
+		}
+		fmt.Fprintf(&b, "  (%s, %s, %s)%s\n", q(d[0]), q(d[1]), d[2], sep)
+	}
+	b.WriteString("].\n\n")
 	fmt.Fprintf(&b, "Definition gen_queue_makes : list (string * string * string) := [\n")
 	for i, m := range makes {
 		sep := ";"
